@@ -1249,6 +1249,42 @@ impl FatVolume {
         Ok(())
     }
 
+    /// Marks every cluster in the chain that starts at the input cluster as free
+    pub(crate) fn free_cluster_chain<D>(
+        &mut self,
+        block_cache: &mut BlockCache<D>,
+        cluster: ClusterId,
+    ) -> Result<(), Error<D::Error>>
+    where
+        D: BlockDevice,
+    {
+        let end_cluster = ClusterId(self.cluster_count + RESERVED_ENTRIES);
+        let mut current = cluster;
+        // a file with no valid cluster allocated has nothing to free, and a
+        // damaged chain must not lead us outside the data clusters
+        while current.0 >= RESERVED_ENTRIES && current.0 < end_cluster.0 {
+            let next = match self.next_cluster(block_cache, current) {
+                Ok(n) => Some(n),
+                Err(Error::EndOfFile) => None,
+                Err(e) => return Err(e),
+            };
+            self.update_fat(block_cache, current, ClusterId::EMPTY)?;
+            if let Some(ref mut next_free_cluster) = self.next_free_cluster {
+                if next_free_cluster.0 > current.0 {
+                    *next_free_cluster = current;
+                }
+            }
+            if let Some(ref mut number_free_cluster) = self.free_clusters_count {
+                *number_free_cluster = number_free_cluster.saturating_add(1);
+            };
+            match next {
+                Some(n) => current = n,
+                None => break,
+            }
+        }
+        Ok(())
+    }
+
     /// Writes a Directory Entry to the disk
     pub(crate) fn write_entry_to_disk<D>(
         &self,
